@@ -82,10 +82,10 @@ theorem sa_semi (x : List Tok) : stopsAny d (TDM.semiTok :: x) = true := by
   exact this
 
 /-! ### DROP TABLE, TRUNCATE TABLE, MSCK REPAIR TABLE, USE, SHOW DATABASES / TABLES -/
-theorem tblName_rest (t : TableName) (ht : TDM.tblOKD t = true) (rest : List Tok) (hr : stopsAny d rest = true) :
-    pTblName (tbl t :: rest) = .ok (t, rest) := TDM.tblName_ok t ht rest (sa_str hr "." (by decide))
+theorem tblName_rest (t : TableName) (ht : TDM2.tblOKD t = true) (rest : List Tok) (hr : stopsAny d rest = true) :
+    pTblName (tbl t :: rest) = .ok (t, rest) := TDM2.tblName_ok t ht rest (sa_str hr "." (by decide))
 
-theorem drop_ok (b : Bool) (t : TableName) (ht : TDM.tblOKD t = true) (rest : List Tok) (hr : stopsAny d rest = true) (f : Nat) :
+theorem drop_ok (b : Bool) (t : TableName) (ht : TDM2.tblOKD t = true) (rest : List Tok) (hr : stopsAny d rest = true) (f : Nat) :
     pStatement d f (toksDrop b t ++ rest) = .ok (.dropTable b t, rest) := by
   have h1 := tblName_rest t ht rest hr
   unfold pStatement toksDrop
@@ -99,7 +99,7 @@ theorem drop_ok (b : Bool) (t : TableName) (ht : TDM.tblOKD t = true) (rest : Li
     kw_simp
     simp only [h1]
 
-theorem truncate_ok (t : TableName) (ht : TDM.tblOKD t = true) (rest : List Tok) (hr : stopsAny d rest = true) (f : Nat) :
+theorem truncate_ok (t : TableName) (ht : TDM2.tblOKD t = true) (rest : List Tok) (hr : stopsAny d rest = true) (f : Nat) :
     pStatement d f (toksTruncate t ++ rest) = .ok (.truncate t, rest) := by
   have h1 := tblName_rest t ht rest hr
   unfold pStatement toksTruncate
@@ -108,7 +108,7 @@ theorem truncate_ok (t : TableName) (ht : TDM.tblOKD t = true) (rest : List Tok)
   kw_simp
   simp only [h1]
 
-theorem msck_ok (t : TableName) (ht : TDM.tblOKD t = true) (rest : List Tok) (hr : stopsAny d rest = true) (f : Nat) :
+theorem msck_ok (t : TableName) (ht : TDM2.tblOKD t = true) (rest : List Tok) (hr : stopsAny d rest = true) (f : Nat) :
     pStatement d f (toksMsck t ++ rest) = .ok (.msck t, rest) := by
   have h1 := tblName_rest t ht rest hr
   unfold pStatement toksMsck
@@ -187,8 +187,8 @@ theorem set_ok (c : ConfigStr) (hn : cfgOK c.name = true) (hv : cfgOK c.value = 
   simp only [h2]
 
 /-! ### ANALYZE TABLE -/
-theorem analyze_ok (t : TableName) (p : Option (List Expr)) (fc cm ns : Bool) (ht : TDM.tblOKD t = true)
-    (hp : if d == .HIVE then TDM.PartRec d noX p else p = none ∧ fc = false ∧ cm = false ∧ ns = false)
+theorem analyze_ok (t : TableName) (p : Option (List Expr)) (fc cm ns : Bool) (ht : TDM2.tblOKD t = true)
+    (hp : if d == .HIVE then TDM2.PartRec d noX p else p = none ∧ fc = false ∧ cm = false ∧ ns = false)
     (rest : List Tok) (hr : stopsAny d rest = true) (f : Nat) (hf : 20 * sizeL (toksAnalyze d t p fc cm ns) + 2 ≤ f) :
     pStatement d f (toksAnalyze d t p fc cm ns ++ rest) = .ok (.analyze t p fc cm ns, rest) := by
   have u1 := sa_up hr "PARTITION" (by decide)
@@ -203,10 +203,10 @@ theorem analyze_ok (t : TableName) (p : Option (List Expr)) (fc cm ns : Bool) (h
   by_cases hd : (d == Gen.D.HIVE) = true
   · simp only [hd, if_true] at hp ⊢
     simp only [toksAnalyze, hd, if_true, sizeL_cons, sizeL_append] at hf
-    have h1 : pTblName (tbl t :: (TDM.toksPart d noX p ++ (opTok "COMPUTE" :: opTok "STATISTICS" :: (TD.flag fc [opTok "FOR", opTok "COLUMNS"] ++
+    have h1 : pTblName (tbl t :: (TDM2.toksPart d noX p ++ (opTok "COMPUTE" :: opTok "STATISTICS" :: (TD.flag fc [opTok "FOR", opTok "COLUMNS"] ++
         (TD.flag cm [opTok "CACHE", opTok "METADATA"] ++ (TD.flag ns [opTok "NOSCAN"] ++ rest)))))) = .ok (t, _) :=
-      TDM.tblName_ok t ht _ (TDM.part_head p _ (by kw_simp))
-    have h2 := TDM.optPartition_ok p hp (opTok "COMPUTE" :: opTok "STATISTICS" :: (TD.flag fc [opTok "FOR", opTok "COLUMNS"] ++
+      TDM2.tblName_ok t ht _ (TDM2.part_head p _ (by kw_simp))
+    have h2 := TDM2.optPartition_ok p hp (opTok "COMPUTE" :: opTok "STATISTICS" :: (TD.flag fc [opTok "FOR", opTok "COLUMNS"] ++
         (TD.flag cm [opTok "CACHE", opTok "METADATA"] ++ (TD.flag ns [opTok "NOSCAN"] ++ rest)))) (by kw_simp) f (by omega)
     simp only at h2
     simp only [List.append_assoc, List.cons_append, e, h1, h2]
